@@ -372,3 +372,36 @@ def _lagrange_recurrence(h, ptype):
 
 for _p in ('lagrange_inequality', 'lagrange_equality'):
     contract('C15/%s/multiplier-recurrence' % _p, ['C15'], P + _p + '.dec.func')(lambda h, p=_p: _lagrange_recurrence(h, p))
+
+
+# ---------------------------------------------------------------- args= / kwds= of the factories, call-time arguments
+def _penalty_options(h, ptype):
+    """penalty(condition, args=(a,), kwds={'t': v})(f)(x, z, u=q): the CONDITION is evaluated at (x, a, t=v) -- its configured
+    arguments --, the decorated FUNCTION at (x, z, u=q) -- the arguments of the call --, each exactly once, and the value is
+    the documented one for those two results"""
+    if not h.is_sym():
+        h.unsupported('symbolic only')
+    k, hh = h.real('k'), h.real('h')
+    h.assume('k > 0 and h > 0', k=k, h=hh)
+    a1, v, z, q = h.real('configured_arg'), h.real('configured_keyword'), h.real('call_arg'), h.real('call_keyword')
+    cond = h.fn('CONDITION', ret='real', log='ccalls')
+    f = h.fn('DECORATED', ret='real', log='fcalls')
+    func = h.call(h.call(h.get(P + ptype), cond, h.tup(a1), h.dict(t=v), k=k, h=hh), f)
+    x = h.vec('x', 2)
+    r = h.call(func, x, z, u=q)
+    cc, fc = h.log('ccalls'), h.log('fcalls')
+    h.check('condition-called-once-with-its-configured-arguments', 'ok',
+            ok=(len(cc) == 1))
+    c = h.call(cond, x, a1, t=v)
+    fx = h.call(f, x, z, u=q)
+    sat = 'c == 0' if ptype in EQ else 'c <= 0'
+    h.check('zero-added-where-the-condition-at-its-own-arguments-is-satisfied-and-f-gets-the-call-arguments', 'implies(%s, eq(r, fx))' % sat, r=r, c=c, fx=fx)
+    h.check('function-called-once', 'len(fc) == 1', fc=fc)
+    if ptype not in ('barrier_inequality',) and not ptype.startswith('lagrange'):
+        h.check('violated-adds-the-documented-amount', 'implies(not (%s), eq(r, fx + %s))' % (sat, FORMULA[ptype]), r=r, c=c, fx=fx, k=k, h=hh, n=0)
+
+
+for _p in EQ + INEQ:
+    if _p == 'barrier_inequality':
+        continue            # (its feasible-side value is finding F10)
+    contract('C15/%s/with-options' % _p, ['C15', 'C14'], P + _p + '.dec.func', native=False)(lambda h, p=_p: _penalty_options(h, p))
